@@ -2,6 +2,8 @@
 //! module per flow to $OUT_DIR/<name>.rs plus $OUT_DIR/all.rs declaring them.
 use hydro_lang::location::Location;
 
+type KV = (i64, i64);
+
 fn main() {
     println!("cargo::rerun-if-changed=build.rs");
     let out_dir = std::env::var("OUT_DIR").unwrap();
@@ -11,20 +13,133 @@ fn main() {
         mods.push(name.to_string());
     };
 
-    // --- one block per flow -------------------------------------------------------------------
+    // one input `a`, one output `out`
+    macro_rules! flow1 {
+        ($m:ident :: $name:ident, $tin:ty) => {{
+            let mut flow = hydro_lang::compile::builder::FlowBuilder::new();
+            let process = flow.process::<()>();
+            hv_tick_flows::$m::$name(process.embedded_input::<$tin>("a")).embedded_output("out");
+            emit(
+                stringify!($name),
+                flow.with_process(&process, stringify!($name)).generate_embedded("hv_tick_flows"),
+            );
+        }};
+    }
+    // two inputs `a`, `b`, one output `out`
+    macro_rules! flow2 {
+        ($m:ident :: $name:ident, $ta:ty, $tb:ty) => {{
+            let mut flow = hydro_lang::compile::builder::FlowBuilder::new();
+            let process = flow.process::<()>();
+            hv_tick_flows::$m::$name(process.embedded_input::<$ta>("a"), process.embedded_input::<$tb>("b"))
+                .embedded_output("out");
+            emit(
+                stringify!($name),
+                flow.with_process(&process, stringify!($name)).generate_embedded("hv_tick_flows"),
+            );
+        }};
+    }
+
+    // --- C30 ----------------------------------------------------------------------------------
+    flow1!(c30::t_fold_sum, KV);
+    flow1!(c30::t_fold_poly, KV);
+    flow1!(c30::t_collect_vec, KV);
+    flow1!(c30::t_reduce, KV);
+    flow1!(c30::t_count, KV);
+    flow1!(c30::t_max, KV);
+    flow1!(c30::t_min, KV);
+    flow1!(c30::t_first, KV);
+    flow1!(c30::t_last, KV);
+    flow1!(c30::t_limit2, KV);
+    flow1!(c30::t_limit0, KV);
+    flow1!(c30::t_sort, KV);
+    flow1!(c30::t_enumerate, KV);
+    flow1!(c30::t_cross_count, KV);
+    flow2!(c30::t_cross_max, KV, KV);
+    flow2!(c30::t_join, KV, KV);
+    flow2!(c30::t_anti_join, KV, KV);
+    flow2!(c30::t_filter_not_in, KV, KV);
+    flow1!(c30::t_unique, KV);
+    flow1!(c30::t_chain, KV);
+    flow1!(c30::t_keyed_fold, KV);
+    flow1!(c30::t_keyed_reduce_first, KV);
+    flow2!(c30::t_composite, KV, KV);
+    flow1!(c30::d_defer1, KV);
+    flow1!(c30::d_defer2, KV);
+    flow1!(c30::d_defer_mix, KV);
+    flow1!(c30::d_diff_prev, KV);
+    flow1!(c30::d_opt_defer, KV);
+    flow1!(c30::d_keyed_defer, KV);
+    flow1!(c30::d_keyed_singleton_defer, KV);
+    flow1!(c30::d_cycle_count, KV);
+    flow1!(c30::d_cycle_stream, KV);
+    flow1!(c30::d_cycle_opt, KV);
+    flow1!(c30::d_forward_ref, KV);
+    flow1!(c30::d_across_count, KV);
+    flow1!(c30::d_across_fold, KV);
+    flow1!(c30::d_across_map, KV);
+    flow1!(c30::d_across_vs_local, KV);
+    flow1!(c30::d_first_tick, KV);
+    flow1!(c30::d_snapshot_total, KV);
+
+    // --- C31 ----------------------------------------------------------------------------------
+    flow1!(c31::s_basic, KV);
     {
         let mut flow = hydro_lang::compile::builder::FlowBuilder::new();
         let process = flow.process::<()>();
-        hv_tick_flows::double(process.embedded_input("input")).embedded_output("output");
-        emit("double", flow.with_process(&process, "double").generate_embedded("hv_tick_flows"));
+        let (acks, slices) = hv_tick_flows::c31::s_atomic(process.embedded_input::<KV>("a"));
+        acks.embedded_output("acks");
+        slices.embedded_output("out");
+        emit("s_atomic", flow.with_process(&process, "s_atomic").generate_embedded("hv_tick_flows"));
+    }
+    flow1!(c31::s_keyed, KV);
+    flow2!(c31::s_buffer, KV, KV);
+    flow1!(c31::s_kfirst, KV);
+    flow1!(c31::s_prev_first, KV);
+
+    // --- C34 ----------------------------------------------------------------------------------
+    macro_rules! counter {
+        ($name:ident) => {{
+            let mut flow = hydro_lang::compile::builder::FlowBuilder::new();
+            let process = flow.process::<()>();
+            let (acks, resp) = hv_tick_flows::c34::$name(
+                process.embedded_input::<KV>("incs"),
+                process.embedded_input::<KV>("gets"),
+            );
+            acks.embedded_output("acks");
+            resp.embedded_output("resp");
+            emit(
+                stringify!($name),
+                flow.with_process(&process, stringify!($name)).generate_embedded("hv_tick_flows"),
+            );
+        }};
+    }
+    counter!(kc_atomic);
+    counter!(kc_atomic_sum);
+    counter!(sc_atomic);
+    counter!(sc_yield_atomic);
+    counter!(kc_nonatomic);
+    counter!(sc_nonatomic);
+
+    // --- C39 ----------------------------------------------------------------------------------
+    for (min, max) in [(1usize, 1usize), (1, 2), (2, 2), (1, 3), (2, 3), (3, 3)] {
+        let mut flow = hydro_lang::compile::builder::FlowBuilder::new();
+        let process = flow.process::<()>();
+        let (ok, err, rok, rerr) =
+            hv_tick_flows::c39::quorum(process.embedded_input::<hv_tick_flows::c39::R>("a"), min, max);
+        ok.embedded_output("ok");
+        err.embedded_output("err");
+        rok.embedded_output("rok");
+        rerr.embedded_output("rerr");
+        let name = format!("quorum_{min}_{max}");
+        emit(&name, flow.with_process(&process, &name).generate_embedded("hv_tick_flows"));
     }
     {
         let mut flow = hydro_lang::compile::builder::FlowBuilder::new();
         let process = flow.process::<()>();
-        hv_tick_flows::running_count(process.embedded_input("input")).embedded_output("output");
-        emit("running_count", flow.with_process(&process, "running_count").generate_embedded("hv_tick_flows"));
+        hv_tick_flows::c39::join_resp(process.embedded_input::<KV>("a"), process.embedded_input::<KV>("b"))
+            .embedded_output("out");
+        emit("join_resp", flow.with_process(&process, "join_resp").generate_embedded("hv_tick_flows"));
     }
-    // -------------------------------------------------------------------------------------------
 
     let mut all = String::new();
     for m in &mods {
@@ -34,4 +149,3 @@ fn main() {
     }
     std::fs::write(format!("{out_dir}/all.rs"), all).unwrap();
 }
-
